@@ -322,6 +322,26 @@ func genMulQuoPair(t *rapid.T) (D, D, bool) {
 		if cx.Sign() == 0 {
 			cx = bi(7)
 		}
+		if !quo && rapid.Bool().Draw(t, "wordThreshold") {
+			// the product just above or below w * 2^(64 j) for the words the reduction kernels compare the top
+			// word with (10000, the four-/three-/two-digit arms, the largest coefficient's top word, 10^19) and
+			// for w = 1: the exact product then has a top word that is exactly, or one off, such a constant
+			w := []uint64{1, 10000, 10001, 0x09c4_0000_0000_0000, 0x00fa_0000_0000_0000, 0x0019_0000_0000_0000, 0x0002_8000_0000_0000, 10_000_000_000_000_000_000, 100, 1000, 100_000_000}[ir(t, 0, 10, "w")]
+			j := uint(ir(t, 1, 3, "j"))
+			target = new(big.Int).Lsh(new(big.Int).SetUint64(w), 64*j)
+			if ir(t, 0, 2, "nextWord") == 0 {
+				target.Add(target, new(big.Int).Lsh(ref.One, 64*j)) // upper end of the top word's block
+			}
+			cy = new(big.Int).Quo(target, cx)
+			cy.Add(cy, bi(int64(ir(t, -1, 1, "side"))))
+			if cy.Sign() <= 0 || cy.Cmp(ref.Cmax) > 0 {
+				// the target is out of reach for this cx: take a multiplier of the size that brings it in reach
+				cx = new(big.Int).Add(new(big.Int).Quo(target, ref.Cmax), bi(int64(ir(t, 1, 1000, "up"))))
+				cx = capCoef(cx)
+				cy = capCoef(new(big.Int).Quo(target, cx))
+			}
+			break
+		}
 		cy = new(big.Int).Quo(target, cx)
 		cy = capCoef(cy)
 	case kind == 8:
